@@ -378,6 +378,30 @@ func handle(verb string, a []string) string {
 		return "ok"
 	case "goroutines":
 		return fmt.Sprintf("ok %d", runtime.NumGoroutine())
+	case "emugoroutines": // goroutines with a frame of the emulator package: "ok <n> <top emulator frame of each, |-separated>"
+		buf := make([]byte, 8<<20)
+		buf = buf[:runtime.Stack(buf, true)]
+		n := 0
+		var tops []string
+		for _, g := range strings.Split(string(buf), "\n\n") {
+			if !strings.Contains(g, "github.com/jimsnab/go-redisemu.") {
+				continue
+			}
+			n++
+			for _, line := range strings.Split(g, "\n") {
+				if i := strings.Index(line, "github.com/jimsnab/go-redisemu."); i >= 0 {
+					f := line[i+len("github.com/jimsnab/go-redisemu."):]
+					if j := strings.Index(f, "("); j > 0 && !strings.HasPrefix(f, "(") {
+						f = f[:j]
+					} else if j := strings.LastIndex(f, "("); j > 0 {
+						f = f[:j]
+					}
+					tops = append(tops, strings.ReplaceAll(f, " ", ""))
+					break
+				}
+			}
+		}
+		return fmt.Sprintf("ok %d %s", n, strings.Join(tops, "|"))
 	case "rss":
 		return fmt.Sprintf("ok %d", rssKiB())
 	case "quit":
